@@ -12,6 +12,8 @@
 (* explained by no action ("they never abort"): the trace is rejected there.                        *)
 EXTENDS Matrix, TraceIO
 
+CONSTANT Deviations     \* ids of the OPEN known findings (KNOWN_FINDINGS.jsonl): the named deviations that may be used
+
 VARIABLE l
 
 W(h)    == FromHalves(h)
@@ -56,8 +58,10 @@ Conv(ev) ==
       [] ev.fn = "f_bounds" ->
             [fn |-> ev.fn, f |-> FMat(ev.f), bin |-> Box(ev.bin), ret |-> ev.ret, bout |-> Box(ev.bout)]
 
-(* the sets of named deviations admissible for an entry point, smallest first *)
-DevSets(fn) ==
+(* the sets of named deviations admissible for an entry point, smallest first; only sets of ids that  *)
+(* are open findings are ever tried (C11-scale-reciprocal-wrap and C11-negate-min-wrap were repaired   *)
+(* in /repo, commit 7c01373, and are no longer enabled: the wrapped values are violations again)       *)
+AllDevSets(fn) ==
     CASE fn = "multiply" -> <<{DevPerTerm}>>
       [] fn = "scale" -> <<{DevPerTerm}, {DevRecip}, {DevPerTerm, DevRecip}>>
       [] fn \in {"rotate", "translate"} -> <<{DevPerTerm}, {DevNegMin}, {DevPerTerm, DevNegMin}>>
@@ -65,6 +69,8 @@ DevSets(fn) ==
       [] fn = "invert" -> <<{DevFromF}, {DevInvSing}>>
       [] fn = "from_f" -> <<{DevFromF}>>
       [] OTHER -> <<>>
+
+DevSets(fn) == SelectSeq(AllDevSets(fn), LAMBDA d : d \subseteq Deviations)
 
 RECURSIVE FirstExplaining(_, _, _)
 FirstExplaining(c, ds, k) ==
